@@ -180,6 +180,8 @@ def build(c, arrs, extra=None):
     sm = S()
     C = getattr(sm, c)
     arrs = [np.asarray(a, dtype=np.float64) for a in arrs]
+    if len(arrs) == 0:
+        return C.Empty()
     if c in POSES + ['Quaternion', 'UnitQuaternion', 'Twist2', 'Twist3']:
         return C(arrs) if len(arrs) > 1 else C(arrs[0])
     if c == 'Plucker':
@@ -294,11 +296,23 @@ def run_cell(ctx, p):
     la = 'M' if (L in CLASSES and hasattr(a, 'data') and isinstance(a.data, list) and len(a.data) > 1) else '1'
     lb = 'M' if (R in CLASSES and hasattr(b, 'data') and isinstance(b.data, list) and len(b.data) > 1) else '1'
     sig = dict(left=L, right=R, op=op, lens=la + 'x' + lb)
+    what0 = '%s %s %s' % (L, op, R)
     cellkey = (L, R, op, la + lb)
     if L == R and L in SV and op in ('add', 'sub', 'iadd', 'isub') and la != lb:
         exp = ('raise',)            # spatial vectors of unequal length must be rejected (C20)
     if (L in ('SpatialInertia',) or (L == 'SE3' and (R in SV or R == 'Plucker'))) and (la == 'M' or lb == 'M') and exp[0] == 'class':
         exp = ('unjudged', 'sequence operands of this pair are not documented')
+    if exp[0] == 'notnone':
+        # an operand holding no value: whatever the library decides (an empty result or an exception), the answer is never None
+        try:
+            v = OPS[op](a, b)
+        except Exception:
+            ctx.ok('table')
+            ctx.cell('judged', L, R, op, 'empty:raises')
+            return
+        ctx.judge('table', v is not None, dict(sig, kind='returned_None', lens='empty operand'), lambda: '%s with an empty operand returned None' % what0)
+        ctx.cell('judged', L, R, op, 'empty:' + describe(v))
+        return
     if exp[0] == 'unjudged':
         try:
             v = OPS[op](a, b)
@@ -443,6 +457,20 @@ def run(ctx):
                         continue
                     e = ('unjudged', 'non-integer power') if bop == 'pow' and not isinstance(s_, int) else exp
                     drive(RUNNERS, ctx, 'cell', dict(L=c, R=type(s_).__name__, op=aop, a=operand(rng, c, ml), b=s_, exp=list(e)))
+    # operands holding no value (Empty()): never None
+    for c in POSES + ['Quaternion', 'UnitQuaternion', 'Twist2', 'Twist3']:
+        d_ = 2 if c in ('SO2', 'SE2', 'Twist2') else 3
+        for op in ARITH + ['eq', 'ne']:
+            for side in ('L', 'R', 'LR', 'vec'):
+                i += 1
+                if not ctx.mine(i):
+                    continue
+                if side == 'vec':
+                    if op != 'mul' or c in ('Quaternion', 'Twist2', 'Twist3'):
+                        continue
+                    drive(RUNNERS, ctx, 'cell', dict(L=c, R='list', op=op, a=[], b=[float(x) for x in gen.vec(rng, d_, 1e-1, 1e1)], exp=['notnone']))
+                else:
+                    drive(RUNNERS, ctx, 'cell', dict(L=c, R=c, op=op, a=[] if 'L' in side else operand(rng, c, False), b=[] if 'R' in side else operand(rng, c, False), exp=['notnone']))
     # a bare matrix on the right of a quaternion or twist is defined nowhere ("matrices with quaternions or twists"): must raise
     for c in ('Quaternion', 'UnitQuaternion', 'Twist2', 'Twist3'):
         for op in ARITH + list(AUG):
